@@ -337,11 +337,11 @@ func (g *gen) netmap() ([]chainx.KV, [][][]byte) {
 		if g.rng.IntN(6) == 0 {
 			continue // never written
 		}
+		// k = 0: the EMPTY list, also in the pre-0.16 format (finding F20, repaired by f42319b, was about exactly
+		// this input: it is generated freely inside the monitored scope; young networks hold it in most slots)
 		k := g.rng.IntN(4)
-		if old && w.wf && k == 0 {
-			// an EMPTY list in the pre-0.16 format is migrated to Null (finding F20, see corpus/C16):
-			// kept out of the generated in-quantifier cases, the corpus witness covers it
-			k = 1
+		if g.rng.IntN(4) == 0 {
+			k = 0
 		}
 		var nodes []stackitem.Item
 		for j := 0; j < k; j++ {
@@ -382,7 +382,7 @@ func (g *gen) netmap() ([]chainx.KV, [][][]byte) {
 	if !w.wf && old {
 		switch g.rng.IntN(3) {
 		case 0:
-			s["snapshot_\x00"] = ser(stackitem.NewArray(nil))
+			s["snapshot_\x00"] = []byte{0x40, 0x01} // truncated: an array of one element that is missing
 		case 1:
 			s["snapshot_\x00"] = []byte{0xff}
 		default:
